@@ -108,4 +108,12 @@ TEXT["C03"] = {
     "note": _TB + "No theorem about flate2/zstd/blosc/bz2/gdeflate/pco is possible here: they are parameters whose laws are hypotheses; lossy codecs are not covered.",
     "technique": "Lean 4 inverse/size proofs for modelled codecs and chain composition + byte-exact differential encoding + round-trip/size tests for external codecs",
 }
+TEXT["C20"] = {
+    "level": "Machine-checked proof that a failing store operation in any reached per-chunk step makes the method return an error; that after the per-chunk steps of ANY sub-list of the chunks "
+             "(whatever internal parallelism completed before the failure) every key holds its previous or its intended value; that re-running the method fault-free from any such partial state gives "
+             "exactly the fault-free final state (idempotent per-chunk read-modify-write, elision included); that a whole-chunk write touches only its key; and that failed reads are not cached. On the "
+             "real code every fault position k of every swept operation is injected through a store wrapper and result class, per-key state, retry convergence and cache behaviour are checked.",
+    "note": _TB + "Panics are explored, not proved absent; the sweep runs at concurrency 1 (sub-lists under parallelism are covered by the theorem, not enumerated).",
+    "technique": "Lean 4 proofs over faulty folds (error propagation, chunk granularity, retry idempotence) + exhaustive fault-position sweep through an injecting store wrapper",
+}
 NOT_YET = {}
